@@ -54,9 +54,12 @@ def debounce_(
             cancelable.disposable = d
 
             def action(scheduler: abc.SchedulerBase, state: Any = None) -> None:
+                # The pending flag is cleared before the element is handed
+                # on: an element pushed into the source from inside the
+                # observer must stay pending.
                 if has_value[0] and _id[0] == current_id:
+                    has_value[0] = False
                     observer.on_next(value[0])
-                has_value[0] = False
 
             d.disposable = _scheduler.schedule_relative(duetime, action)
 
@@ -134,18 +137,18 @@ def throttle_with_mapper_(
                 nonlocal has_value
                 fired[0] = True
                 if has_value and _id[0] == current_id:
+                    has_value = False
                     observer.on_next(value)
 
-                has_value = False
                 d.dispose()
 
             def on_completed() -> None:
                 nonlocal has_value
                 fired[0] = True
                 if has_value and _id[0] == current_id:
+                    has_value = False
                     observer.on_next(value)
 
-                has_value = False
                 d.dispose()
 
             def on_throttle_error(e: Exception) -> None:
